@@ -801,6 +801,10 @@ func main() {
 		sc := sc
 		all = append(all, scen{"v2/" + sc.Name, sc.build, sc.Fault})
 	}
+	for _, sc := range ringScenarios(r.Thorough()) {
+		sc := sc
+		all = append(all, scen{"v2/" + sc.Name, sc.build, sc.Fault})
+	}
 	for _, sc := range v1scenarios(r.Thorough()) {
 		sc := sc
 		all = append(all, scen{"v1/" + sc.Name, func(int) sched.Scenario { return sc.build() }, false})
